@@ -272,6 +272,18 @@ def bad_message(draw):
             else:
                 b += draw(st.binary(min_size=1, max_size=5))
         body = bytes(b)
+    if mtype == rc.UPDATE and draw(st.integers(0, 11)) == 0:
+        # the largest message RFC 4271 allows (4096 octets): an optional transitive attribute of the right size is added
+        # to the path attributes when the body is well enough formed for that, else filler octets
+        room = 4096 - 19 - len(body)
+        try:
+            wd, attrs, nlri = rc.split_update(body)
+            if room >= 4:
+                big = rc.a_unknown(99, b'\x5a' * (room - 4), flags=0xC0, ext=True)
+                body = rc.update_body(wd, attrs + big, nlri)
+        except rc.WalkError:
+            body = body + b'\x00' * max(0, room)
+        kind = kind + '+maxlen'
     body = body[:4096 - 19]
     return {'kind': kind, 'type': mtype, 'body': body.hex()}
 
